@@ -31,8 +31,8 @@ ASSUMPTIONS = ["jsonschema Draft 2020-12 + referencing implement the schemas fai
                "a base pipeline whose fault-free run deviates from generator bookkeeping is discarded and counted"]
 REQUIRED_PROBES = ["failure_at_first_node", "failure_at_last_node", "construction_error", "abort_class_failure", "directory_mode"]
 CONFIG = {
-    "quick": {"runs": 400, "budget_s": 150, "timeout_s": 120},
-    "thorough": {"runs": 12000, "budget_s": 1500, "timeout_s": 120},
+    "quick": {"runs": 800, "budget_s": 240, "timeout_s": 120},
+    "thorough": {"runs": 25000, "budget_s": 1500, "timeout_s": 120},
     "shrink_s": 40.0,
 }
 
